@@ -1,0 +1,48 @@
+//go:build verif
+
+package dkg
+
+import (
+	"time"
+
+	"github.com/bnb-chain/tss-lib/ecdsa/keygen"
+	"github.com/ipfs/go-log/v2"
+	"github.com/keep-network/keep-common/pkg/persistence"
+	"github.com/keep-network/keep-core/pkg/generator"
+)
+
+// Verification hook (build tag verif): re-exports existing identifiers only.
+
+// VerifC39Storage wraps the unexported preParamsStorage; it implements
+// generator.Persistence[PreParams] by delegation.
+type VerifC39Storage struct{ s preParamsStorage }
+
+func VerifC39NewPreParamsStorage(
+	handle persistence.BasicHandle,
+	logger log.StandardLogger,
+) *VerifC39Storage {
+	return &VerifC39Storage{s: newPreParamsStorage(handle, logger)}
+}
+
+func (v *VerifC39Storage) Save(pp *PreParams) (*generator.Persisted[PreParams], error) {
+	return v.s.Save(pp)
+}
+
+func (v *VerifC39Storage) Delete(pp *generator.Persisted[PreParams]) error {
+	return v.s.Delete(pp)
+}
+
+func (v *VerifC39Storage) ReadAll() ([]*generator.Persisted[PreParams], error) {
+	return v.s.ReadAll()
+}
+
+const VerifC39DirName = dirName
+
+// VerifC39NewPreParams builds a PreParams with the given creation timestamp.
+func VerifC39NewPreParams(data *keygen.LocalPreParams, created time.Time) *PreParams {
+	return &PreParams{data, created}
+}
+
+func VerifC39PreParamsFields(pp *PreParams) (*keygen.LocalPreParams, time.Time) {
+	return pp.data, pp.creationTimestamp
+}
